@@ -48,7 +48,7 @@ def run_units(units, tier):
                 import kx
                 futs[ex.submit(kx.run_group, u[5:], REPO, tier)] = u
             else:
-                futs[ex.submit(vrun.run_unit, u, REPO)] = u
+                futs[ex.submit(vrun.run_unit, u, REPO, None, True, (), os.environ.get('VERIF_TAG', ''))] = u
         for f in cf.as_completed(futs):
             results[futs[f]] = f.result()
     return results
@@ -57,7 +57,7 @@ def run_units(units, tier):
 def confirm_failures(unit, res):
     """Re-run a failing Verus unit once with a doubled resource limit; an obligation that does not
     fail again is undecided, not violated."""
-    r2 = vrun.run_unit(unit, REPO, rlimit=20, tag='.confirm')
+    r2 = vrun.run_unit(unit, REPO, rlimit=20, tag=os.environ.get('VERIF_TAG', '') + '_confirm')
     if r2.status == 'undecided':
         return res.failures, []
     again = {(f['fn'], f['label']) for f in r2.failures}
@@ -100,9 +100,32 @@ def main():
     cmds = []
     bounded = []
     smt_ms = 0
+    import bx
+    import finder
     for uname in spec['units']:
         r = results[uname]
         if r.status == 'undecided':
+            extraction = any(r.reason.startswith(x) for x in ('lost anchor', 'verus/rustc error', 'rule engine', 'extractor error'))
+            if extraction and uname in bx.UNIT_HARNESS:
+                # The function was restructured beyond what the spliced proof fits.  Stand-in: a BOUNDED check of the
+                # same contract on the real code.  A divergence is a violation with a concrete input; no divergence
+                # leaves the property undecided (a bounded run proves nothing).
+                br = bx.run([uname], REPO, seed=seed)
+                bounded.append({'unit': uname, 'bounded': True, 'why': 'verifier could not reach: ' + r.reason[:200],
+                                'harness': bx.UNIT_HARNESS[uname][0], 'stats': br.stats, 'status': br.status, 'cmd': br.cmd})
+                cmds.append(br.cmd)
+                for b in br.fails:
+                    if prop in finder.props_of(b):
+                        f = {'unit': 'bounded:' + uname, 'fn': b.get('target'), 'label': b.get('label'), 'kind': 'bounded-contract-check',
+                             'props': finder.props_of(b), 'message': b.get('what'), 'src': None, 'stmt': '', 'rendered': str(b),
+                             'counterexample': {'kind': 'bounded-harness', 'harness': bx.UNIT_HARNESS[uname][0], 'failure': b, 'cmd': br.cmd}}
+                        k = finding_for(kf, prop, f)
+                        (known if k else violations).append((f, k, br))
+                        break
+                else:
+                    undecided.append('%s: %s (bounded stand-in %s: %s)' % (uname, r.reason, bx.UNIT_HARNESS[uname][0],
+                                     'no divergence found' if br.status == 'ok' else br.status + ' ' + br.reason[:100]))
+                continue
             undecided.append('%s: %s' % (uname, r.reason))
             continue
         fails = [f for f in r.failures if prop in (f['props'] or [])]
@@ -134,6 +157,23 @@ def main():
             seen_ob.add((f['fn'], f['label']))
             k = finding_for(kf, prop, f)
             (known if k else violations).append((f, k, r))
+    if tier == 'thorough':
+        bunits = [u for u in spec['units'] if u in bx.UNIT_HARNESS and results[u].status != 'undecided']
+        if bunits:
+            br = bx.run(bunits, REPO, seed=seed, n=150, depth=5)
+            bounded.append({'units': bunits, 'bounded': True, 'why': 'thorough tier: cross-check of the contracts on the compiled code',
+                            'stats': br.stats, 'status': br.status, 'cmd': br.cmd})
+            cmds.append(br.cmd)
+            if br.status == 'undecided':
+                undecided.append('bounded cross-check: ' + br.reason[:200])
+            for b in br.fails:
+                if prop in finder.props_of(b):
+                    f = {'unit': 'bounded:' + [u for u in bunits if bx.UNIT_HARNESS[u][1] == b.get('target')][0], 'fn': b.get('target'), 'label': b.get('label'),
+                         'kind': 'bounded-contract-check', 'props': finder.props_of(b), 'message': b.get('what'), 'src': None, 'stmt': '',
+                         'rendered': str(b), 'counterexample': {'kind': 'bounded-harness', 'failure': b, 'cmd': br.cmd}}
+                    if not any(v[0]['label'] == f['label'] for v in violations):
+                        k = finding_for(kf, prop, f)
+                        (known if k else violations).append((f, k, br))
     wall = time.time() - t0
     # ------------------------------------------------------------- evidence
     ev = {
